@@ -921,7 +921,7 @@ class FormattedText:
             self.current_json["color"] = self.current_color
 
         if self.datapack.version >= PackVersionFeature.TYPE_FIELD_TEXT_COMPONENT:
-            for _type in {"score", "selector", "nbt", "keybind"}:
+            for _type in ("nbt", "keybind", "selector", "score"):  # last match wins: Minecraft's own precedence, whatever the hash seed
                 if _type in self.current_json:
                     self.current_json["type"] = _type
             if (
@@ -931,7 +931,7 @@ class FormattedText:
             ):
                 assert isinstance(self.current_json["__private_nbt_expand__"], dict)
                 self.current_json["type"] = "nbt"
-                for source in {"entity", "block", "storage"}:
+                for source in ("storage", "entity", "block"):
                     if source in self.current_json["__private_nbt_expand__"]:
                         self.current_json["source"] = source
             elif "type" not in self.current_json:
